@@ -448,6 +448,27 @@ class FuncTypes:
         return None
 
     # -- call resolution ---------------------------------------------------------------------
+    def method_aliases(self):
+        """local name -> Attribute node, for names bound exactly once (plain assignment) to `<expr>.<name>`."""
+        if getattr(self, "_maliases", None) is None:
+            counts, val = {}, {}
+            for n in ast.walk(self.func.node):
+                if isinstance(n, ast.Assign):
+                    for t in n.targets:
+                        for x in ast.walk(t):
+                            if isinstance(x, ast.Name):
+                                counts[x.id] = counts.get(x.id, 0) + 1
+                                if x is t:
+                                    val[x.id] = n.value
+                elif isinstance(n, (ast.For, ast.AugAssign, ast.AnnAssign, ast.NamedExpr)):
+                    for x in ast.walk(n.target):
+                        if isinstance(x, ast.Name):
+                            counts[x.id] = counts.get(x.id, 0) + 2
+                elif isinstance(n, ast.arg):
+                    counts[n.arg] = counts.get(n.arg, 0) + 2
+            self._maliases = {k: v for k, v in val.items() if counts.get(k) == 1 and isinstance(v, ast.Attribute)}
+        return self._maliases
+
     def resolve_call(self, call):
         """-> (list of FuncInfo, resolved: bool).  Unresolved method calls return every class
         defining that method name (over-approximation) with resolved=False; calls that are
@@ -460,11 +481,20 @@ class FuncTypes:
             if f.id in r.classes and r.classes[f.id].enum_members is None:
                 m = r.lookup_method(f.id, "__init__")
                 return ([m] if m else []), True
-            # nested def
-            for n in ast.walk(self.func.node):
-                if isinstance(n, ast.FunctionDef) and n is not self.func.node and n.name == f.id:
-                    from .loader import FuncInfo
-                    return [FuncInfo(n.name, n, self.func.cls, self.func.module, parent=self.func)], True
+            # nested def (of this function or of an enclosing one)
+            host = self.func
+            while host is not None:
+                for n in ast.walk(host.node):
+                    if isinstance(n, ast.FunctionDef) and n is not host.node and n.name == f.id:
+                        from .loader import FuncInfo
+                        return [FuncInfo(n.name, n, host.cls, host.module, parent=host)], True
+                host = getattr(host, "parent", None)
+            # local alias of a bound method:  `get = self.workflow.get_task_list` ... `get(...)`
+            al = self.method_aliases().get(f.id)
+            if al is not None:
+                syn = ast.Call(func=al, args=call.args, keywords=call.keywords)
+                ast.copy_location(syn, call)
+                return self.resolve_call(syn)
             return [], True
         if isinstance(f, ast.Attribute):
             if isinstance(f.value, ast.Call) and isinstance(f.value.func, ast.Name) and f.value.func.id == "super" and self.func.cls:
